@@ -147,11 +147,19 @@ class EffectivePotential(ABC):
         # Always float: an integer-typed guess would truncate the located minimum
         resLocation = np.empty_like(guesses, dtype=float)
 
-        # Step of the finite-difference gradient, relative to max(|field|, field scale)
-        stepRel = np.finfo(float).eps ** (1 / 3)
+        # The minimisation is done in dimensionless variables, fields in units of the
+        # configured field scale and the potential in units of (field scale)^4: scipy's
+        # BFGS works with absolute quantities (gradient tolerance, first trial step,
+        # reference size 1 of a vanishing component in its finite-difference steps), so
+        # in raw variables the located minimum, and even the basin it ends up in,
+        # would depend on the units the model is written in.
         fieldScale = 1.0
+        potentialScale = 1.0
         if self.areDerivativesConfigured():
-            fieldScale = np.abs(self.derivativeSettings.fieldValueVariationScale)
+            fieldScale = np.abs(
+                np.asarray(self.derivativeSettings.fieldValueVariationScale, dtype=float)
+            )
+            potentialScale = float(np.mean(fieldScale)) ** 4
 
         for i in range(0, numPoints):
 
@@ -165,28 +173,19 @@ class EffectivePotential(ABC):
                 fields = Fields.castFromNumpy(fieldArray)
                 return self.evaluate(fields, T[i])
 
+            def scaledWrapper(scaledFieldArray: np.ndarray):
+                return evaluateWrapper(scaledFieldArray * fieldScale) / potentialScale
+
             guess = guesses.getFieldPoint(i)
 
             # scipy's default gradient is a forward difference with an absolute step of
-            # 1.5e-8, which cannot resolve the minimum when the fields or the potential
-            # are large (the potential is dominated by its T^4 part). Use central
-            # differences with a relative step instead. The step of a small or vanishing
-            # field component is set by the configured field scale (scipy's own
-            # "3-point" rule uses 1 there, whatever the units).
-            def gradientWrapper(fieldArray: np.ndarray):
-                x = np.asarray(fieldArray, dtype=float)
-                steps = stepRel * np.maximum(np.abs(x), fieldScale)
-                grad = np.empty_like(x)
-                for j, h in enumerate(steps):
-                    xPlus, xMinus = x.copy(), x.copy()
-                    xPlus[j] += h
-                    xMinus[j] -= h
-                    grad[j] = np.squeeze(
-                        evaluateWrapper(xPlus) - evaluateWrapper(xMinus)
-                    ) / (xPlus[j] - xMinus[j])
-                return grad
-
-            res = scipy.optimize.minimize(evaluateWrapper, guess, jac=gradientWrapper, tol=tol)
+            # 1.5e-8, which cannot resolve the minimum when the potential is dominated
+            # by its T^4 part. Use central differences with scipy's relative step.
+            res = scipy.optimize.minimize(
+                scaledWrapper, np.asarray(guess, dtype=float) / fieldScale, jac="3-point", tol=tol
+            )
+            res.x = res.x * fieldScale
+            res.fun = res.fun * potentialScale
 
             resLocation[i] = res.x
             resValue[i] = res.fun
